@@ -309,7 +309,9 @@ where
     fn call(&mut self, req: Req) -> Self::Future {
         let limiter = self.limiter.clone();
         let config = Arc::clone(&self.config);
-        let mut inner = self.inner.clone();
+        // Take the instance that `poll_ready` was called on and leave a fresh clone behind
+        let clone = self.inner.clone();
+        let mut inner = std::mem::replace(&mut self.inner, clone);
 
         Box::pin(async move {
             // Try to acquire a permit
